@@ -110,6 +110,8 @@ def scope_chain_ok(m):
     if r:
         return r
     for f in m.functions.values():
+        if len(f.graph.initializers):
+            return "a function body with initializers (FunctionProto has no field for them)"
         r = walk(f.graph, [])
         if r:
             return r
